@@ -236,8 +236,15 @@ def cfg_frame(maxlen, stalls=False, framings=("tl", "lp", "bsll")):
 VIOLATED = ("invariant", "action_property", "property", "temporal", "assert")
 
 
+WORKER_CAP = [8]          # the models of the quick tier are small: more TLC workers only add start-up and contention
+
+
+def workers():
+    return min(WORKER_CAP[0], int(os.environ.get("VERIF_TLC_WORKERS", "16")))
+
+
 def run_mc(chk, module, name, cfg, expect_error=None, dump=None, timeout=900):
-    res = tlc.run_tlc(module, cfg_text=cfg, timeout=timeout, dump_dot=dump, name="%s/%s" % (module, name))
+    res = tlc.run_tlc(module, cfg_text=cfg, timeout=timeout, dump_dot=dump, name="%s/%s" % (module, name), workers=workers())
     if expect_error is None:
         chk.tlc(res)
         if res["error_kind"]:
@@ -531,7 +538,7 @@ def validate(chk, traces, label, flags):
                 f.write(json.dumps({"tid": t["tid"], "scen": t["scen"], "evs": evs}) + "\n")
         try:
             res = tlc.run_tlc("TRgen", cfg_text=cfg, files={"TRgen.tla": body},
-                              workers=min(8, int(os.environ.get("VERIF_TLC_WORKERS", "16"))), timeout=1800,
+                              workers=workers(), timeout=1800,
                               env={"TRACE_FILE": tf}, name="Trace_Stream/%s/%d" % (label, bi))
         finally:
             shutil.rmtree(wd, ignore_errors=True)
@@ -752,7 +759,7 @@ def validate_frames(chk, recs, stalls, label):
             f.write(json.dumps({k: r[k] for k in ("id", "f", "b", "ok", "pkt", "rest", "exc")}) + "\n")
     cfg = "CONSTANTS\n  ShortLengthStalls = %s\nSPECIFICATION TSpec\nCHECK_DEADLOCK FALSE\n" % tla(bool(stalls))
     try:
-        res = tlc.run_tlc("Trace_StreamFrame", cfg_text=cfg, workers=min(8, int(os.environ.get("VERIF_TLC_WORKERS", "16"))),
+        res = tlc.run_tlc("Trace_StreamFrame", cfg_text=cfg, workers=workers(),
                           timeout=1200, env={"TRACE_FILE": tf}, name="Trace_StreamFrame/" + label)
     finally:
         shutil.rmtree(wd, ignore_errors=True)
@@ -1223,7 +1230,7 @@ def conn_validate(chk, traces, flags, label):
             f.write(json.dumps({"tid": t["tid"], "cfg": {"role": t["cfg"][0], "connT": t["cfg"][1], "idle": t["cfg"][2]},
                                 "evs": [{k: e[k] for k in CONN_EV_KEYS} for e in t["evs"]]}) + "\n")
     try:
-        res = tlc.run_tlc("TCgen", cfg_text=cfg, files={"TCgen.tla": body}, workers=min(8, int(os.environ.get("VERIF_TLC_WORKERS", "16"))),
+        res = tlc.run_tlc("TCgen", cfg_text=cfg, files={"TCgen.tla": body}, workers=workers(),
                           timeout=1800, env={"TRACE_FILE": tf}, name="Trace_StreamConn/%s" % label)
     finally:
         shutil.rmtree(wd, ignore_errors=True)
@@ -1453,6 +1460,7 @@ def main(tier, seed):
     chk = Check("X05", tier, seed)
     extra_findings(chk)
     thorough = tier == "thorough"
+    WORKER_CAP[0] = 8 if thorough else 4
     rng = random.Random(seed)
     chk.rule = ("model: every chunking / interleaving of the scenarios of MC_Stream.tla, every buffer of MC_StreamFrame.tla; "
                 "implementation: one evaluation = one chunk handed to a real StreamToPacket (or one call of a framing function); "
